@@ -8,7 +8,7 @@
 // Layer 1, ASSUMED (`stub`):
 //   fold_limbs, map_limbs (`let &a = ..`: Verus "ref patterns" unsupported; higher-order contracts over `f.requires` / `f.ensures`),
 //   From<u64 | u128> (go through `impl From<u64 | u128> for Uint<LIMBS>`, whose `debug_assert!(LIMBS >= ..)` needs a `requires`
-//   that a trait-impl method cannot carry), div_rem_unchecked (constant-time Knuth D: equal limb counts asserted), div_rem_vartime (see LIMITATION 1),
+//   that a trait-impl method cannot carry), div_rem_vartime (see LIMITATION 1),
 //   safegcd::boxed::gcd (Bernstein-Yang core), Integer::is_odd (provided trait method, hand-declared).
 //   Library (assume_specification): `<BoxedUint as Clone>::clone` (derived), `<[T]>::clone_from_slice`, `Box<T>::as_ref / as_mut`, `Vec<T>: From<Box<[T]>>`,
 //   `Box<[T]>: From<&[T]>`, `core::cmp::max`, `Option<&T>::copied`, `<slice::Iter as Iterator>::fold`, `<Ordering as PartialEq>::eq`
@@ -34,7 +34,8 @@
 //        `BitOps::log2_bits` (default method of the trait, extracted from src/traits.rs) + `BitOps for BoxedUint::bits_precision`
 //   C07  add_mod_assign, add_mod, double_mod, sub_mod, sub_assign_mod_with_carry, sub_mod_special, neg_mod, neg_mod_special, mac_by_limb,
 //        mul_mod_special, AddMod / SubMod / NegMod impls            (BoxedUint has no add_mod_special / sub_mod_assign)
-//   C02/C15  div_rem, rem, wrapping_div, wrapping_div_vartime, checked_div, rem_vartime (PARTIAL, LIMITATION 1), CheckedDiv, DivVartime,
+//   C02/C15  (over `div_rem_unchecked`, the constant-time Knuth D division, PROVED in l8_boxed_divct.rs together with to_limbs / shl / shr)
+//        div_rem, rem, wrapping_div, wrapping_div_vartime, checked_div, rem_vartime (PARTIAL, LIMITATION 1), CheckedDiv, DivVartime,
 //        the four `/` forms and `&a % &d`
 //   C10  `Gcd for BoxedUint::gcd` (power-of-two split around the assumed odd-operand safegcd)
 // NOT covered: mul_mod / MulMod (goes through BoxedMontyForm), traits with two methods in one impl
@@ -76,6 +77,8 @@ use crate::l7_boxed_slices::*;
 use crate::l4_invmod::gcd as spec_gcd;
 use crate::l4_invmod::{lemma_gcd_divides};
 use crate::l8_boxed_lemmas::*;
+use crate::l8_boxed_safegcd::SG_BOXED_MAX_SAT;   // (closure: `safegcd::boxed::gcd` is proved in l8_boxed_safegcd.rs)
+use crate::l8_boxed_divct::*;                                // div_rem_unchecked (constant-time Knuth D) + to_limbs, shl, shr
 use crate::l8_boxed_ct::ConstantTimeSelect as CtAssign;   // `ct_assign` (second method of the trait impl: declared and proved in l8_boxed_ct.rs)
 use crate::l8_boxed_ct::Zero as ZeroSet;                  // `set_zero` (same situation)
 verus! {
@@ -1794,21 +1797,6 @@ pub const fn as_ref(&self) -> (ret__: &T)
     }
 }
 //@@ end
-//@@ fn src/uint/boxed/div.rs | impl BoxedUint | div_rem_unchecked | stub | props C02 C11 C15
-impl BoxedUint {
-#[verifier::external_body]
-pub fn div_rem_unchecked(&self, rhs: &Self) -> (ret__: (Self, Self))
-//@+
-    requires self.wf(), self.nl() == rhs.nl(), rhs.v() != 0
-    ensures ret__.0.nl() == self.nl(), ret__.1.nl() == self.nl(),
-        ret__.0.v() * rhs.v() + ret__.1.v() == self.v(), 0 <= ret__.1.v() < rhs.v(),
-        ret__.0.v() == self.v() / rhs.v(), ret__.1.v() == self.v() % rhs.v()
-//@-
-{
-    unimplemented!()
-}
-}
-//@@ end
 //@@ fn src/uint/boxed/div.rs | impl BoxedUint | div_rem | body | props C02 C11 C15
 impl BoxedUint {
 pub fn div_rem(&self, rhs: &NonZero<Self>) -> (ret__: (Self, Self))
@@ -3427,7 +3415,7 @@ pub trait Gcd<Rhs = Self>: Sized {
         ensures self.gcd_ens(rhs, r);
 }
 // /repo calls the free function of src/modular/safegcd/boxed.rs through the path `safegcd::boxed::gcd`
-mod safegcd { pub mod boxed { pub use crate::l8_boxed_methods::gcd; } }
+mod safegcd { pub mod boxed { pub use crate::l8_boxed_safegcd::gcd; } }   // proved in l8_boxed_safegcd.rs
 //@@ fn src/uint/boxed/bits.rs | impl BoxedUint | trailing_zeros | body | props C05 C11
 impl BoxedUint {
 pub fn trailing_zeros(&self) -> (ret__: u32)
@@ -3648,24 +3636,12 @@ a.bitand(b)
     }
 }
 //@@ end
-//@@ fn src/modular/safegcd/boxed.rs | - | gcd | stub | props C10 C11
-#[verifier::external_body]
-pub fn gcd(f: &BoxedUint, g: &BoxedUint) -> (ret__: BoxedUint)
-//@+
-    // ASSUMED (Bernstein-Yang safegcd core `divsteps` on BoxedUnsatInt; not verified here). Domain as used by `Gcd for BoxedUint`:
-    // equal precisions (`to_uint(f.bits_precision())` debug-asserts the limb count), one operand odd or both zero.
-    requires f.wf(), g.nl() == f.nl(), f.v() % 2 == 1 || g.v() % 2 == 1 || (f.v() == 0 && g.v() == 0)
-    ensures ret__.nl() == f.nl(), ret__.v() == spec_gcd(f.v() as nat, g.v() as nat)
-//@-
-{
-    unimplemented!()
-}
-//@@ end
 //@@ fn src/uint/boxed/gcd.rs | impl Gcd for BoxedUint | gcd | body | props C10 C11 C15
 impl Gcd for BoxedUint {
 //@+
     type Output = Self;
-    open spec fn gcd_req(&self, rhs: &Self) -> bool { self.wf() && rhs.nl() == self.nl() }
+    // SG_BOXED_MAX_SAT (1_369_567 limbs): beyond it `iterations` of the Bernstein-Yang core overflows u32 (l8_boxed_safegcd.rs)
+    open spec fn gcd_req(&self, rhs: &Self) -> bool { self.wf() && rhs.nl() == self.nl() && self.nl() <= SG_BOXED_MAX_SAT() }
     open spec fn gcd_ens(&self, rhs: &Self, r: Self) -> bool { r.nl() == self.nl() && r.v() == spec_gcd(self.v() as nat, rhs.v() as nat) }
 //@-
 fn gcd(&self, rhs: &Self) -> (ret__: Self)
